@@ -860,4 +860,29 @@ theorem text_to_directives (cur : String → Bool) (text : List UInt8) (path : S
     refine ⟨hp.2, hp.1, ?_⟩
     simp [FromSyntax.loadText, hparse]
 
+
+/-! ### non-vacuity -/
+
+/-- the empty file: the translated parser returns the empty tree, the conversion no directives, as the model -/
+example : goSyntaxParse 1 [] "j" ⟨false⟩ = .ok (goFile [] "j" ⟨⟨0, 0⟩, []⟩, .nil) ∧
+    goFromFile (fun _ => false) (goFile [] "j" ⟨⟨0, 0⟩, []⟩).Directives [] = .ok ([], none) ∧
+    FromSyntax.loadText "j" [] = .ok [] := by
+  have hp : Syntax.parseText "j" [] = .ok ⟨⟨0, 0⟩, []⟩ := by
+    simp [Syntax.parseText, Syntax.start, Syntax.parseFile, Syntax.fileLoop_eq, Syntax.atEOF, Syntax.rng]
+  have h := text_to_directives (fun _ => false) [] "j" ⟨false⟩ 1 (by simp) (by simp)
+  rw [hp] at h
+  refine ⟨h.1, rfl, ?_⟩
+  simp [FromSyntax.loadText, hp, FromSyntax.loadItems, FromSyntax.loadItems.go]
+
+/-- the worked example of C07 (a comment line and `open` directive, 23 tokens): the translated parser returns the tree, and the
+translated conversion of that tree stands for what the model loads -/
+example : goSyntaxParse 24 (Syntax.bytesOf Syntax.exText) "j.knut" ⟨true⟩ =
+      .ok (goFile (Syntax.bytesOf Syntax.exText) "j.knut" ⟨⟨0, 23⟩, [⟨⟨3, 22⟩, .open ⟨⟨3, 22⟩, ⟨⟨3, 13⟩⟩, ⟨⟨19, 22⟩, false⟩⟩⟩]⟩, .nil) ∧
+    DirsRel (fun _ => false)
+      (goFromFile (fun _ => false) (goFile (Syntax.bytesOf Syntax.exText) "j.knut" ⟨⟨0, 23⟩, [⟨⟨3, 22⟩, .open ⟨⟨3, 22⟩, ⟨⟨3, 13⟩⟩, ⟨⟨19, 22⟩, false⟩⟩⟩]⟩).Directives [])
+      (FromSyntax.loadText "j.knut" (Syntax.bytesOf Syntax.exText)) := by
+  have h := text_to_directives (fun _ => false) (Syntax.bytesOf Syntax.exText) "j.knut" ⟨true⟩ 24 (by rw [Syntax.ex_decode]; decide) (by decide)
+  rw [Syntax.ex_parse] at h
+  exact h
+
 end Knut.FactsAgree.TransCreate
